@@ -65,4 +65,24 @@ theorem deserElementForms_correct : ∀ f ∈ (deserElementForms : List (String 
   simp only [deserElementForms, List.forall_mem_cons]
   repeat' (first | constructor | (intro dec c v inp; cases c <;> cases v <;> simp) | (intro f hf; simp at hf))
 
+/-! ### the stream serialisers (`CanonicalSerialize for Encoding | Element | AffinePoint`) -/
+
+/-- `serialized_size`: 32 in compressed mode, the `unimplemented!()` panic otherwise -/
+theorem serSizeForms_correct : ∀ f ∈ (serSizeForms : List (String × (Bool → Except SerErr ℕ))),
+    ∀ compress : Bool, f.2 compress = if compress then .ok 32 else .error .panic := by
+  simp only [serSizeForms, List.forall_mem_cons]
+  repeat' (first | constructor | (intro c; first | trivial | rfl | (cases c <;> simp)) | (intro f hf; simp at hf))
+
+/-- `Encoding`: exactly the 32 bytes are written, in either mode -/
+theorem serEncodingForms_correct : ∀ f ∈ (serEncodingForms : List (String × (Bool → List ℕ → Except SerErr (List ℕ)))),
+    ∀ (mode : Bool) (b : List ℕ), f.2 mode b = .ok b := by
+  simp only [serEncodingForms, List.forall_mem_cons]
+  repeat' (first | constructor | (intro m b; first | trivial | rfl | (cases m <;> simp)) | (intro f hf; simp at hf))
+
+/-- `Element`, `AffinePoint`: exactly the canonical encoding is written -/
+theorem serElementForms_correct : ∀ f ∈ (serElementForms : List (String × ((α → List ℕ) → Bool → α → Except SerErr (List ℕ)))),
+    ∀ (enc : α → List ℕ) (mode : Bool) (e : α), f.2 enc mode e = .ok (enc e) := by
+  simp only [serElementForms, List.forall_mem_cons]
+  repeat' (first | constructor | (intro enc m e; first | trivial | rfl | (cases m <;> simp)) | (intro f hf; simp at hf))
+
 end Formulas.ConvForms
